@@ -26,13 +26,19 @@ CONSTANTS MaxHist,        \* length of the call histories
           Vals,           \* parameter values used                    (subset of PoolPVals)
           GuardP, GuardE  \* TRUE: keep the known deviation paramExprShadowsValue / staleErrorMessage out
 
-VARIABLES m, resid, hist, last, acc
+VARIABLES m, resid, prev, hist, last, acc
 
-mcvars == <<vars, m, resid, hist, last, acc>>
+mcvars == <<vars, m, resid, prev, hist, last, acc>>
 LastCall == IF hist = <<>> THEN [op |-> "init"] ELSE hist[Len(hist)]
-View == <<params, fns, liveSS, nSS, liveSrc, nSrc, lastError, m, resid, LastCall>>
+NoResid == [ss |-> "none", class |-> "none"]
+(* prev = resid before the last call: kept in the view when that call was a transformation (the observer of a leak) *)
+View == <<params, fns, liveSS, nSS, liveSrc, nSrc, lastError, m, resid,
+          IF LastCall.op = "Transform" THEN prev ELSE NoResid, LastCall>>
 
-MCInit == Init /\ m = MInit /\ resid = [ss |-> "none", class |-> "none"] /\ hist = <<>>
+(* the design check needs neither: the abstract machine and the bookkeeping do not read resid / prev *)
+ViewMC == <<params, fns, liveSS, nSS, liveSrc, nSrc, lastError, m, LastCall>>
+
+MCInit == Init /\ m = MInit /\ resid = NoResid /\ prev = NoResid /\ hist = <<>>
           /\ last = [e |-> "init"] /\ acc = TRUE
 
 (* the call part of an event (what the harness needs to repeat it) *)
@@ -55,6 +61,7 @@ Do(r, st1, freshOk) ==
   /\ m' = r.m
   /\ acc' = (a.ok /\ freshOk)
   /\ last' = r.ev
+  /\ prev' = resid
   /\ hist' = Append(hist, CallOf(r.ev))
 
 Plain(r) == Do(r, St, TRUE) /\ UNCHANGED resid
